@@ -69,6 +69,8 @@ class SetType(MichelsonType, prim='set', args_len=1):
             py_set = py_obj
         items = list(map(cls.args[0].from_python_object, py_set))
         items = sorted(items)
+        # NOTE: different python objects can denote the same element (e.g. 0 and '1970-01-01T00:00:00Z')
+        cls.check_constraints(items)
         return cls(items)
 
     def to_literal(self) -> Type[Micheline]:
